@@ -492,6 +492,7 @@ def run(ctx: Ctx) -> None:
 
 
 MUTANTS = [
+    ("nets-conflict-by-text", "cmd_parser.py", "            if with_restricted_nets:\n                raise ValueError(", "            if nets_str != \"\":\n                raise ValueError(", "1o"),
     ("empty-product-detected-only-when-off", "params_parser.py", "            if show_empty_cartesian_product:\n                try:", "            if not show_empty_cartesian_product:\n                try:", "7r"),
     ("dict-steps-not-parsed", "params_parser.py", "            if isinstance(step, ParsedDict):\n                parser.parse_string(step.parsable_form())", "            if not isinstance(step, ParsedDict):\n                parser.parse_string(step.parsable_form())", "7r"),
     ("object-key-prefix-match", "cmd_parser.py", "if re.fullmatch(f\"(only|no)_{re.escape(vm_name)}\", key):", "if re.match(f\"(only|no)_{vm_name}\", key):", "1x"),
